@@ -558,6 +558,15 @@ def execute(program, ctx, mode):
     def probe(k):
         ctx.probe('probe')
         keys = live_keys()
+        if mode.get('log_answers'):
+            # differential runs (C10): every entry point's answer for every key goes into the event log
+            for key in keys:
+                for e in range(len(ENTRIES)):
+                    try:
+                        kind, a = safe_ask(regs, key, e)
+                        ctx.log('answer', kind, key['r'] % nR, [LK[x % len(LK)] for x in key['req']], key['p'] % (nP + 1), key['n'] % 3, a)
+                    except Exception as ex:      # noqa
+                        ctx.log('answer', ENTRIES[e], 'raise:' + type(ex).__name__)
         for ki, key in enumerate(keys):
             r = key['r'] % nR
             specs = key_specs(key)
